@@ -116,7 +116,9 @@ def check_direct(case):
             f = lib_exception_failure(e, f"process_message:{it['spec']['kind']}")
             raise Failure(f.sig, f"message {i} {it['spec']}: {f.msg}")
         ref.apply(it["spec"])
-        d = diff_views(refclient.library_view(client), ref.view())
+        lv = refclient.library_view(client)
+        ref.resolve(lv)
+        d = diff_views(lv, ref.view())
         if d:
             raise Failure(f"mirror:{d[0]}:after-{it['spec']['kind'][:3]}{'-noname' if it['spec']['kind'] == 'delProperty' and 'name' not in it['spec']['attrs'] else ''}", f"after message {i} {it['spec']}: {d[1]}")
     nt, labels = stream_labels(case["items"])
@@ -159,7 +161,9 @@ def check_stream(case):
                 f = lib_exception_failure(exc, "receive-loop-died")
                 raise Failure(f.sig, f"wait_for_messages ended after {i}/{len(data)} bytes: {f.msg}")
             raise Failure("receive-loop-ended", f"wait_for_messages returned after {i}/{len(data)} bytes without EOF")
-        d = diff_views(refclient.library_view(client), ref.view())
+        lv = refclient.library_view(client)
+        ref.resolve(lv)
+        d = diff_views(lv, ref.view())
         if d:
             raise Failure(f"stream-mirror:{d[0]}", f"frag={frag[:6]} for_blobs={case.get('for_blobs')}: {d[1]}")
         nt, labels = stream_labels(case["items"])
